@@ -3,6 +3,7 @@ package main
 import (
 	"bytes"
 	"fmt"
+	"github.com/hashicorp/raft-wal/metadb"
 	"os"
 	"os/exec"
 	"path/filepath"
@@ -207,6 +208,42 @@ func suiteOpenDamage(seed uint64, tier string) *Report {
 	defer os.RemoveAll(t.dir)
 	work, _ := os.MkdirTemp(base, "verif-od-work-")
 	defer os.RemoveAll(work)
+	// the segment records the meta store holds for the template (tie to Model/OpenCheck.lean: what Open's walk over these
+	// records answers on the damaged files is computed by the model from the same bytes)
+	var segToks []string
+	{
+		t.restore(work)
+		var mdb metadb.BoltMetaDB
+		ps, err := mdb.Load(work)
+		mdb.Close()
+		if err != nil {
+			rep.Notes = append(rep.Notes, "template meta: "+err.Error())
+		}
+		for _, si := range ps.Segments {
+			sealed := "0"
+			if !si.SealTime.IsZero() {
+				sealed = "1"
+			}
+			segToks = append(segToks, fmt.Sprintf("%d %d %d %d %d %s %d %d", si.ID, si.BaseIndex, si.MinIndex, si.MaxIndex, si.IndexStart, sealed, si.Codec, si.SizeLimit))
+		}
+	}
+	modelLine := func(dir string) string {
+		ents, _ := os.ReadDir(dir)
+		var fs []string
+		for _, e := range ents {
+			if !strings.HasSuffix(e.Name(), ".wal") {
+				continue
+			}
+			b, _ := os.ReadFile(filepath.Join(dir, e.Name()))
+			h := "-"
+			if len(b) > 0 {
+				h = hx(b)
+			}
+			fs = append(fs, e.Name()+":"+h)
+		}
+		return fmt.Sprintf("open %d %d %s %s", wal.CodecBinaryV1, len(segToks), strings.Join(segToks, " "), strings.Join(fs, " "))
+	}
+	var mLines, mImpl, mDesc []string
 	shapes := map[string]bool{}
 	add := func(what, detail string, steps ...string) {
 		if len(rep.Violations) < 12 {
@@ -382,8 +419,18 @@ func suiteOpenDamage(seed uint64, tier string) *Report {
 			rep.Dist["outcome:"+outcome]++
 			continue
 		}
+		segCase := !strings.Contains(c.class, "meta")
+		ml := ""
+		if segCase && len(segToks) > 0 {
+			ml = modelLine(work) // before Open: recovery rewrites the tail
+		}
 		gcOld := debug.SetGCPercent(-1) // finalizers of leaked *os.File would otherwise hide what a failed Open left open
 		w, res := odOpen(work, 20*time.Second)
+		if ml != "" && (res == "ok" || strings.HasPrefix(res, "err")) {
+			mLines = append(mLines, ml)
+			mImpl = append(mImpl, strings.SplitN(res, ":", 2)[0])
+			mDesc = append(mDesc, c.desc)
+		}
 		if w == nil && strings.HasPrefix(res, "err") {
 			if left := fdsUnder(work); len(left) > 0 {
 				add("a failed Open leaves files of the directory open (and the meta DB locked): a later Open in the same process blocks until the garbage collector happens to close them",
@@ -453,6 +500,24 @@ func suiteOpenDamage(seed uint64, tier string) *Report {
 		}
 		shapes[c.class+"/"+outcome] = true
 		rep.Dist["outcome:"+outcome]++
+	}
+	// ---- tie to Model/OpenCheck.lean: the model's walk over the meta store's records, on the damaged bytes, succeeds
+	// exactly when Open does
+	if len(mLines) > 0 {
+		outs, err := runDriver("opencheck", mLines)
+		if err != nil {
+			rep.Divergences = append(rep.Divergences, Divergence{Props: []string{"C11", "C03"}, Case: "opendamage-model", Op: "run driver opencheck", Impl: err.Error()})
+		} else {
+			for i, o := range outs {
+				mc := strings.SplitN(o, " ", 2)[0]
+				rep.Dist["model:"+o[:min(len(o), 24)]]++
+				if mc != mImpl[i] && len(rep.Divergences) < 5 {
+					rep.Divergences = append(rep.Divergences, Divergence{Props: []string{"C11", "C03"}, Case: "opendamage-model", Ops: []string{mDesc[i], clipS(mLines[i])}, At: 0,
+						Op: mDesc[i], Impl: mImpl[i], Model: o})
+				}
+			}
+			rep.Dist["model_opens_compared"] = len(outs)
+		}
 	}
 	// ---- C03: a crash during the very first initialisation of a directory leaves wal-meta.db.tmp behind (complete,
 	// torn, zero-filled or empty) and no wal-meta.db: Open must initialise the directory and leave a usable log
